@@ -3,6 +3,7 @@ import OntVerif.Model.VbftImpl
 import OntVerif.Props.C28
 import OntVerif.Props.C31
 import Mathlib.Data.Fintype.Card
+import Mathlib.Data.Finset.Card
 /-!
 # C34 — Honest VBFT nodes never seal different blocks at the same height
 
@@ -154,7 +155,7 @@ end nonvacuous
 
 /-! ## Implementation layer: refinement obligations of the Go decision functions -/
 section impl
-open OntVerif.Model.BlockPool OntVerif.Model.VbftImpl
+open OntVerif.Model.BlockPool OntVerif.Model.VbftImpl OntVerif.Proofs.BlockPool
 
 /-- `setProposalEndorsed` returns no error for a non-empty endorsement ⇒ the node had endorsed no other non-empty
 proposal (protocol guard of `Step.endorse`); afterwards the endorsement is recorded -/
@@ -262,6 +263,115 @@ theorem C34_impl_counterexample_genuine_signatures :
     have := h 4 1 [3] genuineHistory (by decide)
     revert this
     decide
+
+/-! ### What the shipped decision functions do guarantee -/
+
+/-- two sets of peer indexes below `N` whose sizes add up to more than `N + C` share a peer outside any `C`-set -/
+theorem inter_outside_faulty_nat {N C a b : Nat} (A B F : Finset Nat) (hAN : A ⊆ Finset.range N) (hBN : B ⊆ Finset.range N)
+    (hA : a ≤ A.card) (hB : b ≤ B.card) (hF : F.card ≤ C) (hq : N + C + 1 ≤ a + b) :
+    ∃ p, p ∈ A ∧ p ∈ B ∧ p ∉ F := by
+  have hU : (A ∪ B).card ≤ N := by
+    have := Finset.card_le_card (Finset.union_subset hAN hBN)
+    simpa using this
+  have hIE := Finset.card_union_add_card_inter A B
+  have hlt : F.card < (A ∩ B).card := by omega
+  obtain ⟨p, hp, hnp⟩ := Finset.exists_mem_notMem_of_card_lt_card hlt
+  exact ⟨p, (Finset.mem_inter.mp hp).1, (Finset.mem_inter.mp hp).2, hnp⟩
+
+theorem genuineCount_eq_card (N : Nat) (c : Cand) (p : Nat) :
+    genuineCount N c p = ((Finset.range N).filter (fun i => genuineFor N c p i = true)).card := by
+  unfold genuineCount
+  rw [Finset.card_def]
+  simp [Finset.filter, Finset.range, Multiset.range]
+
+/-- honest peers (outside `F`) have signed blocks of at most one (proposer, version) among the signatures that occur in
+the two pools -/
+def HonestSingle (F : Finset Nat) (cX cY : Cand) : Prop :=
+  ∀ h, h ∉ F → ∀ p v fe p' v' fe',
+    (sigOccurs cX (.valid h (.block p v fe)) = true ∨ sigOccurs cY (.valid h (.block p v fe)) = true) →
+    (sigOccurs cX (.valid h (.block p' v' fe')) = true ∨ sigOccurs cY (.valid h (.block p' v' fe')) = true) →
+    p = p' ∧ v = v'
+
+/-- **C34, implementation layer, what the shipped decision functions DO guarantee.** Two pools (of two nodes, any `N ≥ 3C+1`,
+any faulty set `F` of at most `C` peers), any iteration orders. IF
+* every signature stored in either pool is genuine (`Inv`: claimed index = signer, hash = a block of the named proposer —
+  established by the `.sound` intake, violated by the shipped intake, see C31; monitored on the real pools by the harness),
+* every block signature in a pool is over the version of the proposal that pool stores (`VersionBound`; idem),
+* for the shipped counting: no proposer is recorded as signer of its own proposal (`NoSelfVouch`),
+* every honest peer has signed blocks of at most ONE (proposer, version) at this height (`HonestSingle` — an assumption
+  on `service.go`'s event loop: proposal, endorsement (full or empty) and commit of one node all concern one proposal;
+  monitored on the real `Server`s by the harness, and NOT guaranteed by the event loop once a timeout fires),
+THEN two `commitDone` verdicts name the same proposer and both pools hold the same version of its proposal.
+(The empty/full flag is not covered: see `C34_partial_does_not_cover_forEmpty`.) -/
+theorem C34_impl_safe_partial (v : Variant) (N C : Nat) (hN : 3 * C + 1 ≤ N) (F : Finset Nat) (hF : F.card ≤ C)
+    (cX cY : Cand) (invX : Inv N cX) (invY : Inv N cY) (vbX : VersionBound cX) (vbY : VersionBound cY)
+    (nsX : v = .asShipped → NoSelfVouch cX) (nsY : v = .asShipped → NoSelfVouch cY)
+    (single : HonestSingle F cX cY)
+    (CsrvX CsrvY CX CY : Nat) (eX eY oX oY : List Nat) (hoX : oX.Nodup) (hoY : oY.Nodup)
+    (p p' : Nat) (fe fe' : Bool)
+    (hX : commitDone v N CsrvX eX cX oX CX = (p, fe, true))
+    (hY : commitDone v N CsrvY eY cY oY CY = (p', fe', true)) :
+    p = p' ∧ ∃ ver, storedVer cX p = some ver ∧ storedVer cY p' = some ver := by
+  have qX := commitDone_count v N CsrvX eX cX oX CX p fe invX hoX nsX hX
+  have qY := commitDone_count v N CsrvY eY cY oY CY p' fe' invY hoY nsY hY
+  rw [genuineCount_eq_card] at qX qY
+  have hsum := OntVerif.Props.C28.need_sum .commitMsgQuorum .commitMsgQuorum N C hN
+  simp only [need] at hsum
+  obtain ⟨h, hA, hB, hnF⟩ := inter_outside_faulty_nat _ _ F (Finset.filter_subset _ _) (Finset.filter_subset _ _) qX qY hF hsum
+  have gX := (Finset.mem_filter.mp hA).2
+  have gY := (Finset.mem_filter.mp hB).2
+  obtain ⟨v1, f1, o1⟩ := genuineFor_occurs N cX p h gX
+  obtain ⟨v2, f2, o2⟩ := genuineFor_occurs N cY p' h gY
+  obtain ⟨e1, e2⟩ := single h hnF p v1 f1 p' v2 f2 (Or.inl o1) (Or.inr o2)
+  subst e1; subst e2
+  exact ⟨rfl, v1, vbX _ _ _ _ o1, vbY _ _ _ _ o2⟩
+
+/-- with the C31-repaired intake the first three hypotheses hold by construction: only `HonestSingle` is needed -/
+theorem C34_impl_safe_partial_sound (N C : Nat) (hN : 3 * C + 1 ≤ N) (F : Finset Nat) (hF : F.card ≤ C)
+    (histX histY : List Delivery)
+    (single : HonestSingle F (run .sound N {} histX) (run .sound N {} histY))
+    (CsrvX CsrvY CX CY : Nat) (eX eY oX oY : List Nat) (hoX : oX.Nodup) (hoY : oY.Nodup)
+    (p p' : Nat) (fe fe' : Bool)
+    (hX : commitDone .sound N CsrvX eX (run .sound N {} histX) oX CX = (p, fe, true))
+    (hY : commitDone .sound N CsrvY eY (run .sound N {} histY) oY CY = (p', fe', true)) :
+    p = p' ∧ ∃ ver, storedVer (run .sound N {} histX) p = some ver ∧ storedVer (run .sound N {} histY) p' = some ver :=
+  C34_impl_safe_partial .sound N C hN F hF _ _ (inv_run_sound N {} histX (inv_empty N)) (inv_run_sound N {} histY (inv_empty N))
+    (vbi_run_sound N {} histX vbi_empty).versionBound (vbi_run_sound N {} histY vbi_empty).versionBound
+    (fun e => by cases e) (fun e => by cases e) single CsrvX CsrvY CX CY eX eY oX oY hoX hoY p p' fe fe' hX hY
+
+section partialExamples
+private def Bk (p ver : Nat) (fe : Bool) : Hash := .block p ver fe
+private def prop1 : Delivery := .proposal ⟨1, 0, .valid 1 (Bk 1 0 false), .valid 1 (Bk 1 0 true)⟩
+private def endorseFull (i : Nat) : Delivery := .endorse i ⟨i, 1, Bk 1 0 false, false, .valid i (Bk 1 0 false)⟩
+private def commitEmpty (i : Nat) : Delivery :=
+  .commit i ⟨i, 1, Bk 1 0 true, true, .valid 1 (Bk 1 0 true), [], .valid i (Bk 1 0 true)⟩
+private def o7 : List Nat := [0, 1, 2, 3, 4, 5, 6]
+
+/-- the theorem says nothing about the empty/full flag, and nothing can be said: N = 7, every message genuine, every
+honest peer signs only blocks of proposal (1, version 0) — the full block when endorsing, the empty block when committing
+after a timeout. One pool sees the endorsements and declares the full block, the other sees the commits and declares
+the empty block (`empty-and-full-block-of-one-proposal`). -/
+theorem C34_partial_does_not_cover_forEmpty :
+    commitDone .sound 7 2 o7 (run .sound 7 {} [prop1, endorseFull 0, endorseFull 2, endorseFull 3, endorseFull 4]) o7 2
+      = (1, false, true) ∧
+    commitDone .sound 7 2 o7 (run .sound 7 {} [prop1, commitEmpty 0, commitEmpty 2, commitEmpty 3, commitEmpty 4]) o7 2
+      = (1, true, true) := by decide
+
+set_option maxRecDepth 8000 in
+/-- `HonestSingle` is the hypothesis that `genuineHistory` (all signatures genuine, sound intake) violates: honest peer 0
+signs block 0 as its proposer and block 3 as endorser -/
+theorem C34_genuine_counterexample_breaks_HonestSingle :
+    let w := OntVerif.Model.VbftImpl.runOps .sound { N := 4, C := 1, faulty := [3] } genuineHistory
+    ¬ HonestSingle {3} (w.node 1).cand (w.node 2).cand := by
+  intro w h
+  have := h 0 (by decide) 0 0 false 3 0 false (Or.inr (by decide)) (Or.inl (by decide))
+  exact absurd this.1 (by decide)
+
+/-- non-vacuity of `C34_impl_safe_partial_sound`: two pools of an honest N = 4 round -/
+example : commitDone .sound 4 1 [0, 1, 2, 3] (run .sound 4 {} OntVerif.Props.C31.honestRun) [0, 1, 2, 3] 1 = (1, false, true) ∧
+    commitDone .sound 4 1 [0, 1, 2, 3] (run .sound 4 {} (OntVerif.Props.C31.honestRun.take 3)) [2, 0, 1, 3] 1 = (1, false, true) := by
+  decide
+end partialExamples
 
 -- non-vacuity: an honest round in the implementation model on which all three honest nodes seal the same block
 set_option maxRecDepth 8000 in
